@@ -285,7 +285,7 @@ std::string runAllMt(int rounds)
     for (size_t t = 0; t < N; ++t) ths.emplace_back([&, t] {
         int seen = 0;
         for (;;) {
-            while (phase.load(std::memory_order_acquire) == seen) { if (quit.load()) return; }
+            while (phase.load(std::memory_order_acquire) == seen) { if (quit.load()) return; std::this_thread::yield(); }
             seen = phase.load(std::memory_order_acquire);
             try { res[t](static_cast<int>(10 + t)); } catch (...) { ++thrown; }
             ++arrived;
@@ -301,7 +301,7 @@ std::string runAllMt(int rounds)
         all.then([&](const Tup& tup) { ++calls; sum += std::get<0>(tup) + std::get<N - 1>(tup); }, Async::NoExcept);
         arrived = 0;
         phase.fetch_add(1, std::memory_order_release);
-        while (arrived.load() < static_cast<int>(N)) { }
+        while (arrived.load() < static_cast<int>(N)) std::this_thread::yield();
         int c = calls.load();
         if (c == 1) { ++once; if (sum.load() != 10 + 10 + static_cast<int>(N) - 1) ++wrong; } else if (c == 0) ++none; else ++multi;
     }
@@ -317,6 +317,7 @@ void registerAsync(std::map<std::string, Op>& ops)
         if (w.size() != 3) return "bad-op";
         int n = atoi(w[1].c_str()), rounds = atoi(w[2].c_str());
         if (rounds < 1 || rounds > 1000000) return "bad-op";
+        alarm(180);       // many rounds of real threads: the driver's per-line watchdog of a few seconds is for the sequential programs
         if (n == 2) return runAllMt<2>(rounds);
         if (n == 3) return runAllMt<3>(rounds);
         if (n == 4) return runAllMt<4>(rounds);
